@@ -44,7 +44,7 @@ From NV Require Import FatAlloc.Model FatAlloc.ProofsBase FatAlloc.ProofsGrow Fa
 Import ListNotations.
 Open Scope N_scope.'''
 
-H_DATA = H_ALLOC.replace('Import ListNotations.', 'From NV Require Import FatRead.Model FatData.Model FatData.Spec FatData.ProofsBase FatData.Proofs.\nFrom NV Require FatDir.Model FatDir.ProofsBase FatDir.ProofsView FatDir.ProofsClean FatDir.ProofsOps FatDir.ProofsAppend FatDir.ProofsMain.\nImport ListNotations.')
+H_DATA = H_ALLOC.replace('Import ListNotations.', 'From NV Require Import FatRead.Model FatData.Model FatData.Spec FatData.ProofsBase FatData.Proofs.\nFrom NV Require FatDir.Model FatDir.ProofsBase FatDir.ProofsView FatDir.ProofsClean FatDir.ProofsOps FatDir.ProofsAppend FatDir.ProofsMain.\nFrom NV Require FatVol.Model FatVol.Spec FatVol.ProofsBase FatVol.ProofsInv FatVol.Proofs.\nImport ListNotations.')
 
 mkprops.emit('/verif/coq/Props/C04.v',
     'C04 -- Any history of mutations leaves a consistent volume with expected content. Statements only.\n'
@@ -67,6 +67,12 @@ mkprops.emit('/verif/coq/Props/C04.v',
      ('C04_other_clusters_untouched', 'FatData.Proofs.FD_other_clusters_untouched', 'frame: clusters outside the file s chain keep their bytes, foreign FAT entries are unchanged'),
      ('C04_dir_update_in_place', 'FatDir.ProofsOps.setitem_existing_updates_in_place', 'stage E (directory entries): storing an existing name (any case variant or its alias) rewrites exactly that one record, keeping the stored name fields and attr2'),
      ('C04_dir_delitem_spec', 'FatDir.ProofsOps.delitem_spec', 'stage E: deleting removes exactly that group from the listing; every other group is byte-identical and every other key resolves as before'),
+     ('C04_path_step_inv', 'FatVol.Proofs.FV_step_inv', 'stage P (path operations over the whole volume at record level: FAT values + every directory s decoded entries, dead slots, dot entries): every operation -- open(w/x/a/r+)+action+close, touch, unlink, mkdir, rmdir, rename in all its branches -- with every outcome, ENOSPC included, preserves VolInv: all chains well-formed and pairwise disjoint, no lost cluster, sizes match chains, empty files own no cluster, dot entries right, names and aliases unique, the directory graph is a tree'),
+     ('C04_path_step_refines', 'FatVol.Proofs.FV_step_refines', 'stage P: outcome and tree of every operation are those of the plain in-memory tree model (the same rules as harness/fatops.py)'),
+     ('C04_path_failure_keeps_tree', 'FatVol.Proofs.FV_failure_keeps_tree', None),
+     ('C04_path_history_inv', 'FatVol.Proofs.FV_history_inv', 'stage P: ANY history'),
+     ('C04_path_history_refines', 'FatVol.Proofs.FV_history_refines', 'stage P: ANY history without ENOSPC refines the plain tree model and ends in VolInv (history_refines at record level)'),
+     ('C04_path_rename_refines', 'FatVol.Proofs.FV_rename_refines', None),
      ('C04_history_partial', 'FatAlloc.Proofs.FA_history', 'ANY sequence of file operations on any family of files sharing one table: every file stays well-formed, chains stay disjoint, foreign entries (directories, reserved) keep their value'),
     ], tail='''
 Theorem C04_source_facts :
@@ -91,6 +97,9 @@ mkprops.emit('/verif/coq/Props/C10.v',
      ('C10_data_step_enospc', 'FatData.Proofs.FD_step_enospc', 'at byte level: a step that fails does so with ENOSPC, keeps the invariant; a failed truncate changes nothing, a failed write keeps a strict prefix of the buffer'),
      ('C10_clean_preserves_listing', 'FatDir.ProofsClean.clean_preserves_listing', 'compaction of a directory (run when a fixed root is full) keeps the listing and every look-up, leaves no deleted record before the new end, zero-fills the tail'),
      ('C10_root_full_enospc', 'FatDir.ProofsMain.root_full_enospc', 'a fixed root: ENOSPC exactly when, even after compaction, the new records plus the end-of-directory record do not fit; the directory then lists and resolves exactly as before'),
+     ('C10_path_history_inv', 'FatVol.Proofs.FV_history_inv', 'whole-volume invariant (no lost / shared cluster, sizes match chains, tree-shaped) after ANY history of path operations, whatever fails with ENOSPC on the way (mkdir releases its cluster, a failed unlink / rmdir changes nothing)'),
+     ('C10_unlink_fail_unchanged', 'FatVol.Proofs.FV_unlink_fail_unchanged', None),
+     ('C10_rmdir_fail_unchanged', 'FatVol.Proofs.FV_rmdir_fail_unchanged', None),
      ('C10_history_wf', 'FatAlloc.Proofs.FA_history', None),
     ], tail='''
 Theorem C10_source_facts :
